@@ -16,11 +16,11 @@ variable (sig : Sig) (sigSelf : SigSelf)
 def tsKuBody : List Stmt := rangeBody (x509_validateTimestampingKeyUsagePresent.body.getD 1 (.opaque ""))
 
 theorem tsKuLoop (fn : String) (cal) (cv : Val) : ∀ (exts : List (Int × Bool)) (i : Nat),
-    rangeLoop (fun st => execBlock ⟨fn, prims sig sigSelf, cal⟩ st tsKuBody) "_" "ext" i (exts.map extV)
-        [[("hasKeyUsageExtension", .bool false), ("cert", cv)]]
+    rangeLoop (fun st => execBlock ⟨fn, prims sig sigSelf, cal⟩ st tsKuBody) "_" "v2" i (exts.map extV)
+        [[("v1", .bool false), ("v0", cv)]]
       = match findExt oidKeyUsage exts with
-        | none => .next [[("hasKeyUsageExtension", .bool false), ("cert", cv)]]
-        | some _ => .next [[("hasKeyUsageExtension", .bool true), ("cert", cv)]] := by
+        | none => .next [[("v1", .bool false), ("v0", cv)]]
+        | some _ => .next [[("v1", .bool true), ("v0", cv)]] := by
   intro exts
   induction exts with
   | nil => intro i; simp [rangeLoop, findExt]
@@ -28,9 +28,9 @@ theorem tsKuLoop (fn : String) (cal) (cv : Val) : ∀ (exts : List (Int × Bool)
     intro i
     obtain ⟨o, cr⟩ := e
     have step : (fun st => execBlock ⟨fn, prims sig sigSelf, cal⟩ st tsKuBody)
-          [[("ext", extV (o, cr))], [("hasKeyUsageExtension", .bool false), ("cert", cv)]]
-        = if o = 15 then .brk [[("ext", extV (o, cr))], [("hasKeyUsageExtension", .bool true), ("cert", cv)]]
-          else .next [[("ext", extV (o, cr))], [("hasKeyUsageExtension", .bool false), ("cert", cv)]] := by
+          [[("v2", extV (o, cr))], [("v1", .bool false), ("v0", cv)]]
+        = if o = 15 then .brk [[("v2", extV (o, cr))], [("v1", .bool true), ("v0", cv)]]
+          else .next [[("v2", extV (o, cr))], [("v1", .bool false), ("v0", cv)]] := by
       by_cases ho : o = 15 <;>
         simp [tsKuBody, rangeBody, x509_validateTimestampingKeyUsagePresent, extV, field,
           execBlock, exec, eval, evalArgs, sbindAll, sbind, sdefine, sassign, fset, sget, fget,
@@ -108,19 +108,19 @@ theorem validateTimestampingCACertificate_eq (n : Nat) (c : Cert) (exts) (h : Ex
 def tsEkuBody : List Stmt := rangeBody (x509_validateTimestampingExtendedKeyUsage.body.getD 1 (.opaque ""))
 
 theorem tsEkuLoop (fn : String) (cal) (cv : Val) : ∀ (exts : List (Int × Bool)) (i : Nat),
-    rangeLoop (fun st => execBlock ⟨fn, prims sig sigSelf, cal⟩ st tsEkuBody) "_" "ext" i (exts.map extV) [[("cert", cv)]]
+    rangeLoop (fun st => execBlock ⟨fn, prims sig sigSelf, cal⟩ st tsEkuBody) "_" "v1" i (exts.map extV) [[("v0", cv)]]
       = match findExt oidExtKeyUsage exts with
         | some false => .ret [.err fn 1 []]
-        | _ => .next [[("cert", cv)]] := by
+        | _ => .next [[("v0", cv)]] := by
   intro exts
   induction exts with
   | nil => intro i; simp [rangeLoop, findExt]
   | cons e r ih =>
     intro i
     obtain ⟨o, cr⟩ := e
-    have step : (fun st => execBlock ⟨fn, prims sig sigSelf, cal⟩ st tsEkuBody) [[("ext", extV (o, cr))], [("cert", cv)]]
-        = if o = 37 then (if cr then .brk [[("ext", extV (o, cr))], [("cert", cv)]] else .ret [.err fn 1 []])
-          else .next [[("ext", extV (o, cr))], [("cert", cv)]] := by
+    have step : (fun st => execBlock ⟨fn, prims sig sigSelf, cal⟩ st tsEkuBody) [[("v1", extV (o, cr))], [("v0", cv)]]
+        = if o = 37 then (if cr then .brk [[("v1", extV (o, cr))], [("v0", cv)]] else .ret [.err fn 1 []])
+          else .next [[("v1", extV (o, cr))], [("v0", cv)]] := by
       by_cases ho : o = 37 <;> cases cr <;>
         simp [tsEkuBody, rangeBody, x509_validateTimestampingExtendedKeyUsage, extV, field,
           execBlock, exec, eval, evalArgs, sbindAll, sbind, sdefine, sassign, fset, sget, fget,
